@@ -8,7 +8,7 @@ import Uquic.Generated.Handshake
 open Uquic.Oracle Uquic.Model.KeyPhase Uquic.Spec.KeyPhaseMon
 
 open Uquic.Model.Bytes (toHex ofHex beBytes nonce)
-open Uquic.Model.Prim (hkdfExpandLabel trafficKeys gcmSeal)
+open Uquic.Model.Prim (hkdfExpandLabel trafficKeys gcmSealWith expandKey)
 
 /-- the fixed write secret of endpoint `i` in the driver (`byte(17*i + 3*j + 1)`, 32 bytes) -/
 def harnessSecret (i : Nat) : List UInt8 := (List.range 32).map fun j => UInt8.ofNat (17 * i + 3 * j + 1)
@@ -29,6 +29,16 @@ def Chain.extend (c : Chain) (ver : Nat) (g : Nat) : Chain := Id.run do
     | none => c := c
   return c
 
+/-- cached AES-128-GCM material of one (endpoint, generation): IV and expanded key, for the code's chain and
+    for the RFC's chain -/
+structure GenKeys where
+  ep : Nat
+  gen : Nat
+  codeIV : List UInt8
+  codeRK : Array (List UInt8)
+  rfcIV : List UInt8
+  rfcRK : Array (List UInt8)
+
 /-- the driver's associated data and plaintext of packet `id` -/
 def adOf (bit : Int) (pn : Int) : List UInt8 := [UInt8.ofNat bit.toNat] ++ beBytes 8 pn.toNat
 def msgOf (id : Nat) : List UInt8 := (List.range (id % 7)).map fun i => UInt8.ofNat (id * 31 + i)
@@ -38,6 +48,7 @@ structure St where
   ver : Nat := 1
   ch0 : Chain := [(harnessSecret 0, harnessSecret 0)]
   ch1 : Chain := [(harnessSecret 1, harnessSecret 1)]
+  gk : List GenKeys := []
   env : Env := { pto3 := 600000000, keyUpdateInterval := 100000, firstKeyUpdateInterval := 100,
                  invalidPacketLimit := Uquic.Gen.Protocol.InvalidPacketLimitAES }
   a0 : KA := {}
@@ -103,7 +114,7 @@ def step (s : St) (op impl : String) : St × StepOut :=
   | "init" =>
     let pto3 := implInt impl "pto3=" 0
     let limit := if (arg 1) % 3 == 2 then Uquic.Gen.Protocol.InvalidPacketLimitChaCha else Uquic.Gen.Protocol.InvalidPacketLimitAES
-    ({ suite := (arg 1).toNat % 3, ver := if arg 2 == 2 then 2 else 1,
+    ({ suite := (arg 1).toNat % 3, ver := if arg 2 == 2 then 2 else 1, gk := [],
        env := { pto3 := pto3, keyUpdateInterval := arg 3, firstKeyUpdateInterval := arg 4, invalidPacketLimit := limit } },
      { model := s!"pto3={pto3} limit={limit}", tags := ["init"] })
   | "confirm" =>
@@ -134,15 +145,22 @@ def step (s : St) (op impl : String) : St × StepOut :=
     -- the sealed bytes: predicted for TLS_AES_128_GCM_SHA256 from the key-update chain, a witness otherwise
     let s := if s.suite == 0 then s.extend ep gen.toNat else s
     let implCt := (implField impl "ct=").getD ""
-    let (ctModel, ctFails) : String × List Fail :=
-      if s.suite == 0 then
+    -- expanded keys are cached per (endpoint, generation)
+    let s := if s.suite == 0 && !(s.gk.any fun k => k.ep == ep && k.gen == gen.toNat) then
         match (s.chain ep)[gen.toNat]? with
         | some (codeSec, rfcSec) =>
-          let sealWith (sec : List UInt8) : String :=
-            let ks := trafficKeys s.ver sec
-            toHex (gcmSeal ks.key (nonce ks.iv pn.toNat) (adOf b pn) (msgOf id))
-          let mc := sealWith codeSec
-          let rc := sealWith rfcSec
+          let ck := trafficKeys s.ver codeSec; let rk := trafficKeys s.ver rfcSec
+          { s with gk := { ep := ep, gen := gen.toNat, codeIV := ck.iv, codeRK := expandKey ck.key,
+                           rfcIV := rk.iv, rfcRK := expandKey rk.key } :: s.gk }
+        | none => s
+      else s
+    let (ctModel, ctFails) : String × List Fail :=
+      if s.suite == 0 then
+        match s.gk.find? (fun k => k.ep == ep && k.gen == gen.toNat) with
+        | some k =>
+          let mc := toHex (gcmSealWith k.codeRK (nonce k.codeIV pn.toNat) (adOf b pn) (msgOf id))
+          let rc := if k.codeRK == k.rfcRK && k.codeIV == k.rfcIV then mc
+            else toHex (gcmSealWith k.rfcRK (nonce k.rfcIV pn.toNat) (adOf b pn) (msgOf id))
           (mc, if implCt ≠ rc then
             [("aead_matches_rfc", if s.ver == 2 && gen ≥ 1 && implCt == mc then "v2_ku_label" else "-",
               s!"version {s.ver} generation {gen} pn={pn}: sealed {implCt}, RFC 9001 §6.1 / RFC 9369 §3.3.2 key chain gives {rc}")] else [])
